@@ -5,6 +5,7 @@ import (
 	"fmt"
 	"math/big"
 	"math/rand"
+	"os"
 
 	"github.com/consensys/gnark/frontend"
 	gl "github.com/wormhole-foundation/example-near-light-client/goldilocks"
@@ -343,3 +344,8 @@ func poseidonDrv(raw json.RawMessage, resp *drv.Response) error {
 }
 
 var _ = rand.Int
+
+// loadOracleDefault loads the oracle from the files named by VERIF_GL_SCHED / VERIF_BN_SCHED / VERIF_PLANS.
+func loadOracleDefault() (*ref.Oracle, error) {
+	return loadOracle(oracleFiles{GlSched: os.Getenv("VERIF_GL_SCHED"), BnSched: os.Getenv("VERIF_BN_SCHED"), Plans: os.Getenv("VERIF_PLANS")})
+}
